@@ -162,4 +162,32 @@ PROPS = {
                          "lean/Model/JsonGrammar.lean: RFC 8259 at byte level (specification)"],
         "assumptions": ["ill-formed UTF-8 and escaped lone surrogates inside string literals are accepted (implementation-defined in RFC 8259; DESIGN.md §10)"],
     },
+    "C07": {
+        "kind": "c07,scan",
+        "module": "Props.C07",
+        "namespace": "Jl.C07",
+        "rule": ("streams of 0-7 lines drawn from valid objects, blank lines, invalid JSON, non-object values, lines rejected by the template "
+                 "and trailing-content lines, with LF / CRLF / missing final newline, delivered by readers returning 1-byte, 3-, 7-byte, "
+                 "mixed-with-empty-reads, 64-, 1000-byte and whole-buffer chunks, under the default and the tolerant processor; line "
+                 "lengths around the 64 KiB initial buffer and 1 MiB (thorough: around 10 MiB). Stream()'s return, the processor call "
+                 "log and the bytes written are compared with the model and with specObs (per-line outcomes folded through the "
+                 "processor). The scan sub-run validates the scanner port against bufio.Scanner on random scripts with tiny buffers "
+                 "(all bookkeeping branches: compaction, doubling, too-long, read errors with and without data, empty reads). distinct = "
+                 "distinct (processor, reader script)"),
+        "trusted_base": [KERNEL, CORR, "lean/Model/Scanner.lean (port of bufio.Scanner, validated against bufio.Scanner), lean/Model/Stream.lean (hand-written from streamer.go/importer.go/exporter.go)"],
+        "assumptions": ["the reader honours io.Reader's contract (0 <= n <= len(p))"],
+    },
+    "C08": {
+        "kind": "c08",
+        "module": "Props.C08",
+        "namespace": "Jl.C08",
+        "rule": ("for each of 5 streams (<= 4 lines; LF/CRLF/blank/rejected lines; with and without final newline; empty): the reader failing "
+                 "at EVERY byte offset k (as (0,err) after k bytes, as (k,err) with the data, and after 1-byte reads) and the writer failing "
+                 "at EVERY write index j (plain failure and short write), each under the default, tolerant and fail-at-call-1 processors; "
+                 "101 empty reads (no progress); thorough: an over-long line first / middle / last. Judged by c08Violation on Stream()'s "
+                 "return, the processor call log and the writes: reader failure reported, every write before the failing one is a complete "
+                 "valid line, nothing written after a fatal write failure. distinct = distinct (stream, fault, processor)"),
+        "trusted_base": [KERNEL, CORR, "lean/Model/Scanner.lean, lean/Model/Stream.lean (as C07)"],
+        "assumptions": ["a Write returning n < len(p) returns an error (io.Writer's contract)"],
+    },
 }
